@@ -172,7 +172,7 @@ pub fn run(case: &LspCase, tag: u64) -> Outcome {
     cx::clear_hooks();
     cx::install_sorted_enumeration();
     pico::verif_hooks::set_capacity_override(std::num::NonZeroUsize::new(case.capacity.max(1)));
-    for d in [0usize, 1, 2, 3] {
+    for d in [0usize, 1, 2, 3, 6] {
         let _ = std::fs::create_dir_all(w.abs(DIRS[d]));
     }
     for (p, s) in &case.initial {
